@@ -85,3 +85,7 @@ static inline int sqlite3_exec(struct sqlite3 *db, const char *sql, void *cb, vo
 static inline long long sqlite3_last_insert_rowid(struct sqlite3 *db) { return g_last_rowid; }
 static inline int sqlite3_close(struct sqlite3 *db) { return 0; }
 keyt g_key_text;
+/* llvm::DenseSet<DBKeyID>: whether an id was already present is arbitrary here (dependency ids may repeat) */
+struct dbidset { char _e; }; struct dbidins { _Bool second; };
+_Bool nondet_dbid_new(void);
+static inline struct dbidins dbidset_insert(struct dbidset *s, struct DBKeyID id) { struct dbidins r; r.second = nondet_dbid_new(); return r; }
